@@ -223,7 +223,7 @@ def check_C07(tier, seed):
                       'second row of the O(r^2) system under M (needs a cancellation between fX0 and fXc), *_untwisted under T, '
                       'Cartesian converters; thresholded root selection in r_singularity and iota2 under F are outside the theorem. '
                       'Newton/linear solves enter through their residual equations.',
-                      oracle_args=['--prop', 'C07'], seq_obligations=['props/C07_lasym.v'])
+                      oracle_args=['--prop', 'C07'], seq_obligations=['props/C07_lasym.v', 'props/Actions.v', 'props/Axis.v'])
 
 
 def check_C05(tier, seed):
@@ -232,7 +232,7 @@ def check_C05(tier, seed):
                       'grid size and every circulant differentiation matrix; the sigma pin is handled by stating the law for the unpinned '
                       'residual. Origin-dependent by definition (excluded): *_untwisted on helical axes, varphi (induced law checked by the '
                       'harness), Cartesian components. Not proved: that Newton reaches the shifted solution (uniqueness).',
-                      oracle_args=['--prop', 'C05'])
+                      oracle_args=['--prop', 'C05'], seq_obligations=['props/Actions.v', 'props/Axis.v'])
 
 
 def check_C04(tier, seed):
@@ -336,7 +336,7 @@ def check_C03(tier, seed):
                       '(every n) varphi[0] = 0, strictly increasing, closing one field period, from the recorded trapezoid recurrence; elongation^2 = s1^2/s2^2 (singular values) and >= 1. '
                       'Hypotheses: R0 > 0, non-vanishing curvature, the harmonic sums R0.. are the derivatives of each other (jets_consistent; term-by-term check by the harness). '
                       'NOT proved: quadrature error rate; min_R0 / max_elongation (spectral-minimum oracle).',
-                      gprops=False, seq_obligations=['props/C03_spec.v', 'props/C03.v', 'props/Pipeline_qsc.v'], ncorr=(8 if tier == 'quick' else 48),
+                      gprops=False, seq_obligations=['props/C03_spec.v', 'props/C03.v', 'props/Pipeline_qsc.v', 'props/Axis.v'], ncorr=(8 if tier == 'quick' else 48),
                       theorems=['C03_T1', 'C03_frenet_serret', 'C03_T3', 'C03_varphi', 'C03_elongation_h0', 'C03_elongation_hN'])
 
 
@@ -364,7 +364,7 @@ def check_C16(tier, seed):
                       '(gprops/C16_layout.v), that no object attribute aliases a caller array after any order of mutators (verified effect checker), and the preset facts '
                       '(advertised names accepted, else raises ValueError, defaults only if missing, branches disjoint). The model is also replayed inside Coq on every generated history and '
                       'compared with the real object. Known finding: 12 accepted-but-unadvertised names.',
-                      gprops=False, extra_obligations=['gprops/C16_layout.v', 'gprops/C16_presets.v'], theory_obligations=['ObjModel', 'Effects'],
+                      gprops=False, extra_obligations=['gprops/C16_layout.v', 'gprops/C16_presets.v'], theory_obligations=['ObjModel', 'Effects'], seq_obligations=['props/Axis.v'],
                       pre_cmds=[[PY, os.path.join(HERE, 'gen_obj.py'), '--repo', REPO]],
                       theorems=['ObjModel.wf_preserved', 'ObjModel.names_dofs_aligned', 'ObjModel.set_get_id', 'ObjModel.get_set_id', 'ObjModel.history_fresh',
                                 'ObjModel.calc_pad_necessary', 'C16_layout.no_caller_alias_any_order', 'C16_presets.advertised_accepted', 'C16_presets.defaults_only_if_missing'])
@@ -430,7 +430,7 @@ def check_C18(tier, seed):
 
 # hand-written theories each check depends on (others are not built, so work in progress elsewhere cannot disturb it)
 NEEDS = {
-    'C08': ['Expr', 'Equiv', 'Dim'], 'C07': ['Expr', 'Equiv', 'Sign'], 'C05': ['Expr', 'Equiv', 'Shift'],
+    'C08': ['Expr', 'Equiv', 'Dim'], 'C07': ['Expr', 'Equiv', 'Sign', 'Shift', 'Shallow', 'DiffMat'], 'C05': ['Expr', 'Equiv', 'Sign', 'Shift', 'Shallow', 'DiffMat'],
     'C04': ['Expr', 'Shallow'], 'C11': ['Expr', 'Shallow'], 'C13': ['Expr', 'Shallow', 'Quadrant'], 'C19': ['Expr', 'Equiv', 'Dim', 'Sign'], 'C17': ['Expr', 'Effects'], 'C12': ['Expr', 'Equiv', 'Dim', 'Sign', 'Shallow', 'RootSelect'], 'C16': ['Expr', 'Effects', 'ObjModel'], 'C09': ['Expr', 'Shallow', 'Pipeline'], 'C03': ['Expr', 'Shallow', 'Pipeline'], 'C06': ['Expr', 'Equiv', 'Replicate'], 'C14': ['Expr', 'Shallow'], 'C15': ['Expr', 'Shallow'], 'C18': ['Expr', 'ObjModel'], 'C10': ['Expr', 'Shallow'], 'C01': ['Expr', 'Shallow', 'Series'], 'C02': ['Expr', 'Shallow', 'Newton'],
     'C20': ['Expr', 'Equiv', 'Sign', 'Shift', 'DiffMat', 'Newton', 'Bracket'],
 }
